@@ -29,7 +29,7 @@ def scan(casefile, limit=40):
         except Exception as ex:          # malformed line: the tie is broken, not the property
             msg = "oracle could not parse the case: %r" % ex
         if msg is not None:
-            if len(fails) < limit:
+            if keep_failure(fails, msg):
                 fails.append({"line": lineno, "op": op, "args": args[:3] if op == "c09" else args[:12], "impl": res[:12], "why": msg,
                               "detail": " ".join(res[1:])[:300] if op == "c09" else ""})
         elif op == "c09" and len(samples) < 10 and n % 211 == 0:
